@@ -320,6 +320,8 @@ class ExprMixin:
             return t if op == "is" else Term("not", (t,), kind="bool", node=node)
         if op in ("in", "not in"):
             a = self.resolve(a)
+            if isinstance(b, (SetV, DictV)) or self.kind_of(b) in ("set", "dict", "frozenset"):
+                self.hash_partial(a, node, "membership test in a set / dict")
             r = self._contains(b, a)
             if r is None and isinstance(a, (Sym, Term)) and isinstance(b, DictV) and b.concrete() and b.pairs() \
                     and self.kind_of(a) in (None, "key") and self.known_fact(Term("in", (a, b)).key()) is None \
@@ -449,6 +451,59 @@ class ExprMixin:
         if isinstance(a, Ext) and isinstance(b, Ext):
             return a.name == b.name
         return None
+
+    HASHABLE_KINDS = ("str", "int", "float", "bool", "bytes", "NoneType", "ellipsis", "type", "UUID", "datetime", "date",
+                      "key", "function", "frozenset", "Schema", "optional")
+
+    def hashable(self, x: Any, depth: int = 0) -> bool:
+        """Is hashing `x` known not to raise TypeError?  (keys taken out of a dict / set, constants, values of a scalar
+        kind, classes, tuples of such; anything else - an arbitrary caller value, a tuple around one - may be unhashable)"""
+        if depth > 6 or not isinstance(x, V):
+            return False
+        x = self.resolve(x)
+        if isinstance(x, Const):
+            try:
+                hash(x.value)
+                return True
+            except TypeError:
+                return False
+        if isinstance(x, (ClassV, Ext, FuncV, Inst, SchemaV)) or is_ell(x) or is_nil(x):
+            return True
+        if isinstance(x, StrV):
+            return True
+        if isinstance(x, TupleV):
+            return x.concrete() and all(self.hashable(i, depth + 1) for i in x.items)
+        if isinstance(x, (ListV, DictV, SetV)):
+            return False
+        k = self.kind_of(x)
+        if k in self.HASHABLE_KINDS or (k is not None and k.endswith("Schema")):
+            return True
+        o = getattr(x, "origin", None)
+        if o and o[0] in ("key", "dictkey", "member", "prop", "attr", "range", "index", "field"):
+            return True          # a key of a mapping / a declared token / a declared prop / an index
+        if o and o[0] == "elem" and len(o) > 1 and isinstance(o[1], V) and (
+                self.kind_of(o[1]) in ("set", "dict", "str", "frozenset")
+                or (isinstance(o[1], Term) and o[1].op in ("keys", "set", "frozenset"))
+                or (isinstance(o[1], Term) and o[1].op == "call" and o[1].args and o[1].args[0] in ("builtins.set", "builtins.frozenset"))):
+            return True          # a member of a set / a key view / a str
+        if isinstance(x, Term) and x.op in ("call",) and x.args and x.args[0] in ("builtins.type", "builtins.id", "builtins.len",
+                                                                                  "builtins.str", "builtins.repr", "builtins.hash"):
+            return True
+        if isinstance(x, Term) and x.op in ("len", "isinstance", "lt", "eq", "in", "is", "not", "join", "format", "attr"):
+            return True
+        if isinstance(x, Term) and x.op in ("getitem", "unpack", "mcall", "slice") and self.kind_of(x) is None:
+            # parts of strings (split / partition / slices of a str) are strings
+            base = x.args[0] if x.args else None
+            while isinstance(base, Term) and base.op in ("getitem", "unpack", "mcall", "slice") and base.args:
+                if base.op == "mcall" and len(base.args) > 1 and base.args[1] in ("split", "rsplit", "partition", "rpartition", "splitlines"):
+                    return self.kind_of(base.args[0]) == "str"
+                base = base.args[0]
+            return isinstance(base, V) and self.kind_of(base) == "str"
+        return False
+
+    def hash_partial(self, key: Any, node: Any, what: str) -> None:
+        if isinstance(key, V) and not self.hashable(key):
+            self.partial("hash", (TypeError,), node, operands=(key,), what=what)
 
     def _contains(self, container: V, item: V) -> Optional[bool]:
         if isinstance(container, Const) and isinstance(item, Const):
